@@ -13,8 +13,8 @@ type xb struct {
 	Any bool
 }
 
-func kb(k int) xb             { return xb{K: k} }
-func vb(v absint.Value) xb    { return xb{V: v} }
+func kb(k int) xb          { return xb{K: k} }
+func vb(v absint.Value) xb { return xb{V: v} }
 func zeros(n int) []xb {
 	out := make([]xb, n)
 	return out
